@@ -145,6 +145,32 @@ theorem closing_is_own_under_faults (F : Nat → Bool) (cfg : Cfg) (s : State) (
   obtain ⟨y', hy', extra, r, _, _⟩ := others_stepF F cfg s e d y hd hF hy
   refine ⟨y', hy', ?_, ?_, ?_, ?_⟩ <;> rw [r.eq]
 
+
+/-- "… or lose, duplicate, reorder or corrupt a message that connection is entitled to", UNDER WRITE FAULTS, for EVERY
+    history (any fault set and any store contents per event) and EVERY connection: the OP_PUBLISH frames written to it
+    so far are exactly, in order, once each, the accepted publishes that list it as a recipient (C01.delivery_log,
+    verbatim) — whatever other transports broke meanwhile. -/
+theorem delivery_log_under_faults (cfg : Cfg) (es : List (Store × List Nat × Event)) (d : Nat) (y : Conn)
+    (hy : (runF cfg es).conn d = some y) : pubFrames y.out = delivered (runF cfg es).accepted d :=
+  (delivF_runF cfg es).log d y hy
+
+/-- … and every accepted publish was written to connections entitled to it only, once each, each of which had passed
+    the subscribe ACL for the channel; it names the ident its sender was authenticated as and a channel on that
+    identity's publish list (C01.exactly_entitled / C03 / C04 with `recips ⊆ entitled` instead of `=`: the entitled
+    connections that are missing are exactly those whose own transport refused the write, `write_fault_recipients`). -/
+theorem accepted_sound_under_faults (cfg : Cfg) (es : List (Store × List Nat × Event)) (a : Accepted)
+    (ha : a ∈ (runF cfg es).accepted) :
+    a.recips.Nodup ∧ (∀ d, d ∈ a.recips → d ∈ a.entitled) ∧ a.grantedOk = true ∧ a.srcAk = some a.ident ∧
+      a.chan ∈ a.srcPubchans :=
+  let k := (delivF_runF cfg es).acc a ha
+  ⟨k.nodup, k.sub, k.granted, k.ident, k.chan⟩
+
+/-- a closing connection has been written no OP_PUBLISH since it began closing — also when it is closing because its
+    own transport refused a write -/
+theorem no_publish_after_close_under_faults (cfg : Cfg) (es : List (Store × List Nat × Event)) (d : Nat) (y : Conn)
+    (hy : (runF cfg es).conn d = some y) (hc : y.closing = true) : y.pubsAtClose = some (pubFrames y.out) :=
+  ((delivF_runF cfg es).conn d y hy).atClose hc
+
 /-! non-vacuity (kernel-evaluated): the C01 example history (connections 1 and 2 subscribed to "c", 1 publishes),
     with connection 2's transport refusing the write: 2 is closed and written nothing, the publisher still gets its
     own copy, and the accepted entry records recipient [1] of the entitled [1, 2]. -/
